@@ -376,12 +376,30 @@ class Impl:
         autos = ','.join('%d>%d:%d:%s' % (e, a._type_id, 1 if a._is_loaded else 0,
                                           '+'.join(map(str, sorted(a._running_effect_ids))))
                          for e, a in sorted(obj.autocharges.items()))
+        # autocharge mappings handed out earlier must stay consistent containers: whatever they still list
+        # must still be owned (a mapping emptied by the engine lists nothing)
+        held = getattr(self, 'autoheld', None)
+        if held is None:
+            held = self.autoheld = {}
+        cur = obj.autocharges
+        if len(cur) and all(cur is not m for m in held.get(i, [])):
+            held.setdefault(i, []).append(cur)
+        stale = ''
+        for m in held.get(i, []):
+            try:
+                vals = list(m.values())
+                keys = list(m)
+            except Exception as e:  # noqa
+                stale = ' STALE-AUTOCHARGES(%s)' % type(e).__name__
+                break
+            if len(m) != len(keys) or any(v._container is None for v in vals) or any(k not in m for k in keys):
+                stale = ' STALE-AUTOCHARGES'
         cached = obj.attrs._MutableAttrMap__modified_attrs
-        return 'item %d cont=%s fit=%s state=%s loaded=%d running=%s target=%s charge=%s autos=%s cached=%s' % (
+        return 'item %d cont=%s fit=%s state=%s loaded=%d running=%s target=%s charge=%s autos=%s%s cached=%s' % (
             i, self.place(obj), self.fid(obj._fit), '-' if st is None else int(st),
             1 if obj._is_loaded else 0, ','.join(map(str, sorted(obj._running_effect_ids))),
             self.iid(getattr(obj, 'target', None)), self.iid(getattr(obj, 'charge', None)),
-            autos, ','.join(map(str, sorted(cached))))
+            autos, stale, ','.join(map(str, sorted(cached))))
 
     def fit_dump(self, f):
         fit = self.fits.get(f)
